@@ -275,8 +275,14 @@ def gen_judge(case, impl, wd):
                 bad.append(f"block {idx}: node {kk - off} is not attached to node {(kk - off - 1) // bf} of the tree")
                 break
         for i, attr, v in case['labels']:
-            if i == idx and any(g.nodes[kk].get(attr) != v for kk in range(off, off + size)):
+            if i == idx and any(back.nodes[kk].get(attr) != v for kk in range(off, off + size) if kk in back.nodes):
                 bad.append(f"label {attr}={v} not on every residue of block {idx}")
+        stated = {attr for i, attr, v in case['labels'] if i == idx}
+        for kk in range(off, off + size):
+            extra = [a for a in ('chiral',) if kk in back.nodes and back.nodes[kk].get(a) is not None and a not in stated]
+            if extra:
+                bad.append(f"residue {kk + 1} of block {idx} carries the label {extra[0]} which no -label option states for that block")
+                break
         off += size
     if len(g.nodes) != off:
         bad.append(f"{len(g.nodes)} residues, the sequence of macros states {off}")
@@ -307,6 +313,74 @@ def gen_judge(case, impl, wd):
         kk = next(i for i in range(off) if got[i] != want[i])
         bad.append(f"residue {kk + 1} is named {got[kk]}, the specification (macros + terminal renaming) states {want[kk]}")
     return bad
+
+
+HEAD_ITP = """[ moleculetype ]
+HEAD 1
+[ atoms ]
+1 P1 1 HA A 1 0.0 72
+2 P1 2 HB A 2 0.0 72
+3 P1 2 HB B 3 0.0 72
+4 P1 3 HC A 4 0.0 72
+[ bonds ]
+1 2 1 0.3 1000
+2 3 1 0.3 1000
+3 4 1 0.3 1000
+"""
+
+
+def file_macro_cases(ctx, wd):
+    """gen_seq with a macro taken from a file (-from_file), used once or several times, next to a string macro, with labels on
+    some blocks: residues, numbering, edges and -- exactly on the labelled blocks -- the labels, read back from the .json"""
+    import pathlib
+    from polyply.src.gen_seq import gen_seq
+    rng = ctx.rng
+    itp = pathlib.Path(wd) / 'head.itp'
+    itp.write_text(HEAD_ITP)
+    blocks = {'H': (['HA', 'HB', 'HC'], [(0, 1), (1, 2)]), 'A': (['PEO', 'PEO'], [(0, 1)])}
+    for _ in range(ctx.n(10, 80)):
+        seq = [rng.choice('HHA') for _ in range(rng.randint(2, 4))]
+        if 'H' not in seq:
+            seq[rng.randrange(len(seq))] = 'H'
+        sizes = [len(blocks[t][0]) for t in seq]
+        starts = [sum(sizes[:i]) for i in range(len(seq))]
+        connects = [(k, k + 1, sizes[k] - 1, 0) for k in range(len(seq) - 1)]
+        labels = [(i, rng.choice(['chain', 'chiral']), rng.choice(['X', 'R'])) for i in range(len(seq)) if rng.random() < 0.4]
+        out = pathlib.Path(wd) / 'fm.json'
+        try:
+            quiet(gen_seq, 'x', out, seq, inpath=[itp], from_file=['H:HEAD'], macro_strings=['A:2:1:PEO-1.0'],
+                  connects=[f'{i}:{j}:{a}-{b}' for i, j, a, b in connects], tags=[f'{i}:{attr}:{v}-1.0' for i, attr, v in labels])
+        except Exception as exc:  # noqa
+            ctx.violation('spec', f"gen_seq rejects a valid specification with a macro from a file: {type(exc).__name__}: {exc}",
+                          {'file_macro': {'seq': seq, 'labels': labels}})
+            continue
+        import vermouth.forcefield
+        from polyply import MetaMolecule
+        meta = quiet(MetaMolecule.from_sequence_file, vermouth.forcefield.ForceField('x'), out, 'x')
+        ctx.case(('file_macro', tuple(seq), tuple(labels)), nontrivial=seq.count('H') >= 2 and bool(labels),
+                 sample={'sequence': seq, 'labels': labels})
+        ctx.feature('gen_seq_macro_from_file')
+        want_names = [n for t in seq for n in blocks[t][0]]
+        want_edges = sorted({(starts[i] + a, starts[i] + b) for i, t in enumerate(seq) for a, b in blocks[t][1]} |
+                            {tuple(sorted((starts[i] + a, starts[j] + b))) for i, j, a, b in connects})
+        names, resid_ok, edges = graph_of(meta)
+        bad = None
+        if names != want_names or not resid_ok:
+            bad = f"residues {names} (consecutive numbering {resid_ok}), the specification states {want_names}"
+        elif [(a, b) for a, b, _ in edges] != want_edges:
+            bad = f"edges {[(a, b) for a, b, _ in edges]}, the specification states {want_edges}"
+        else:
+            for i, t in enumerate(seq):
+                for k in range(starts[i], starts[i] + sizes[i]):
+                    want = {attr: v for bi, attr, v in labels if bi == i}
+                    got = {attr: meta.nodes[k].get(attr) for attr in ('chain', 'chiral') if meta.nodes[k].get(attr) is not None}
+                    if got != want:
+                        bad = f"residue {k + 1} (block {i}, macro {t}) carries the labels {got}, the -label options state {want} for its block"
+                        break
+                if bad:
+                    break
+        if bad:
+            ctx.violation('spec', f"gen_seq (macro from a file, sequence {seq}, labels {labels}): {bad}", {'file_macro': {'seq': seq, 'labels': labels}})
 
 
 def run(ctx):
@@ -358,6 +432,7 @@ def run(ctx):
                 ctx.violation('spec', f"gen_seq rejects a valid specification: {impl[1]}", {'case': case})
             exprs.append('run_case (' + coq_case(case) + ')')
             keep.append((case, impl))
+        file_macro_cases(ctx, wd)
     try:
         out = core.coq_eval_cases(ctx, 'seq', PRELUDE, exprs, chunk=80)
     except core.CoqEvalError as exc:
